@@ -1230,7 +1230,9 @@ class CircuitIR(AbstractBaseIR):
         """
         try:
             v = self[var]
-        except KeyError:
+        except (KeyError, AttributeError):
+            # AttributeError: the first path component (a node label) happens to be the name of a backend variable,
+            # so the hierarchical lookup ended on a variable instead of raising KeyError
             v = self._front_to_back[var]
         return v.name if get_key else v
 
